@@ -199,7 +199,12 @@ Theorem C05_example_document : doc_repr_open ex_now (Some ex_md) ex_items.
 Proof. exact ex_doc_repr. Qed.
 Print Assumptions C05_example_document.
 
-(* ---- the reader on any file: block framing, user-data blocks, times, the ignore option ---- *)
+(* ---- the reader on any file: block framing, user-data blocks, times, the ignore option ----
+   C05_read_spec is a STRUCTURAL lemma, not a fidelity statement: it restates the reader without fuel and block reading
+   (blocks_spec is the reader's own loop body over a list of 128-byte blocks), which is what the proofs about concrete
+   files rest on.  The fidelity statement - the reader returns what a file MEANS, for every rendering of a ground-truth
+   model - is C05_read_rendered (end of this file), whose denotation denote_stl is defined independently of the parser
+   functions' control flow and which is proved through this lemma. *)
 Theorem C05_read_spec : forall (ign : bool) (gb : str) (blocks : list str) (g : gsi),
   length gb = 1024%nat -> Forall (fun p => length p = 128%nat) blocks ->
   parse_gsi gb = Ok g -> nmem (g_cct g) stl_tables_existing = true ->
